@@ -122,7 +122,8 @@ package mp4
 //@   requires swOKi(p1) && boxOK(p0)
 //@   ensures swOKi(p1)
 //@   ensures[C02] result == nil ==> adv(p1, int(p0.Size()))
-//@   assigns p1.(*bits.FixedSliceWriter).off, p1.(*bits.FixedSliceWriter).accError, p1.(*bits.FixedSliceWriter).n, p1.(*bits.FixedSliceWriter).v, p1.(*bits.FixedSliceWriter).buf[:]
+//@   defines[C03] result == nil && p1.(*bits.FixedSliceWriter).accError == nil ==> ghost(p1).tr == trApp(old(ghost(p1).tr), chEnc(p0))
+//@   assigns p1.(*bits.FixedSliceWriter).off, p1.(*bits.FixedSliceWriter).accError, p1.(*bits.FixedSliceWriter).n, p1.(*bits.FixedSliceWriter).v, p1.(*bits.FixedSliceWriter).buf[:], ghost(p1).tr
 
 //@ func containerSize
 //@   ensures result == 8 + sizeSum(children, len(children))
@@ -134,6 +135,6 @@ package mp4
 //@   requires kidsOK(c.GetChildren())
 //@   requires len(c.Type()) == 4
 //@   ensures[C02] result == nil ==> adv(sw, int(c.Size()))
-//@   assigns sw.(*bits.FixedSliceWriter).off, sw.(*bits.FixedSliceWriter).accError, sw.(*bits.FixedSliceWriter).n, sw.(*bits.FixedSliceWriter).v, sw.(*bits.FixedSliceWriter).buf[:]
+//@   assigns sw.(*bits.FixedSliceWriter).off, sw.(*bits.FixedSliceWriter).accError, sw.(*bits.FixedSliceWriter).n, sw.(*bits.FixedSliceWriter).v, sw.(*bits.FixedSliceWriter).buf[:], ghost(sw).tr
 //@   loop 1 invariant idx(1) <= len(c.GetChildren())
 //@   loop 1 invariant adv(sw, 8 + int(sizeSum(c.GetChildren(), idx(1))))
